@@ -343,7 +343,8 @@ class World:
         self.clean = os.path.join(base, tag + "-clean")
         self.tag = tag
         self.clock = 1
-        self.rec = {}          # command name -> {sig, seen, outs, unc}
+        self.rec = {}          # command name -> {sig, seen, outs, unc, dirgen}
+        self.mkgen = {}        # directory node -> how many times its mkdir command has (re)created it so far
         self.fails = []
         self.trace = []
         self.stats = {"builds": 0, "clean_builds": 0, "success": 0, "failed": 0, "null": 0, "desc_edits": 0, "fs_edits": 0,
@@ -427,7 +428,8 @@ class World:
             if k == "virt":
                 continue
             if k == "dir":
-                if mk_ran.get(i):
+                # (also when the directory was re-created by an EARLIER build that did not consider this command)
+                if mk_ran.get(i) or self.mkgen.get(i, 0) != r.get("dirgen", {}).get(i, self.mkgen.get(i, 0)):
                     may = True
                 continue
             if post.get(i) != r["seen"].get(i, "never"):
@@ -509,6 +511,8 @@ class World:
                 o = c["outputs"][0]
                 ran = r is None or r["sig"] != d.sig(c) or bool(r.get("unc")) or pre.get(o) is None or not stat.S_ISDIR(pre[o][3])
                 mk_ran[o] = ran
+                if ran:
+                    self.mkgen[o] = self.mkgen.get(o, 0) + 1
                 self.rec[c["name"]] = {"sig": d.sig(c), "seen": {}, "outs": {}}
         for c in d.cmds:
             if c["tool"] != "shell" or c["name"] not in rc_cmds:
@@ -531,7 +535,8 @@ class World:
                 self.stats["may"] += 1
             if ran:
                 self.rec[c["name"]] = {"sig": d.sig(c), "seen": {i: post.get(i) for i in c["inputs"]},
-                                       "outs": {o: post.get(o) for o in c["outputs"]}}
+                                       "outs": {o: post.get(o) for o in c["outputs"]},
+                                       "dirgen": {i: self.mkgen.get(i, 0) for i in c["inputs"]}}
             else:
                 r = self.rec.get(c["name"])
                 if r is not None:
